@@ -51,6 +51,36 @@ EXTRA_QUERIES = [
 ]
 
 ORPHAN_KEY = "mutation-root-starts-while-background-work-of-earlier-root-pending"
+# True: the overlap is a violation of the serial clause (one stable key); False: it is only counted
+REPORT_ORPHAN_OVERLAP = True
+
+A, S = "async", "sync"
+# (query, behaviours, completion order): deterministic cases run first
+FIXED = [
+    ("{ a{id} b{id} c{id} me{id} slow{bestFriend{name}} }", {("slow",): (A, "value")}, [("slow",)]),
+    # two awaitable siblings, one fails at a non-null position: the other is cancelled / completes first
+    ("{ me { name req } a { id } }", {("me", "name"): (A, "value"), ("me", "req"): (A, "raise"), ("a", "id"): (A, "value")},
+     [("me", "req"), ("me", "name"), ("a", "id")]),
+    ("{ me { name req } a { id } }", {("me", "name"): (A, "raise"), ("me", "req"): (A, "raise"), ("a", "id"): (A, "value")},
+     [("me", "name"), ("a", "id"), ("me", "req")]),
+    # synchronous failure next to a pending sibling: the sibling is left to the background
+    ("{ me { name req } a { id } }", {("me",): (A, "value"), ("me", "name"): (A, "value"), ("me", "req"): (S, "raise"), ("a", "id"): (A, "value")},
+     [("me",), ("me", "name"), ("a", "id")]),
+    # nested non-null chain: the error passes two gathers, everything below the nulled position is cancelled
+    ("{ me { nnFriend { name req nnFriend { name req } } friends { name req } } a { nnFriends { req name } } }",
+     {("me", "nnFriend", "name"): (A, "value"), ("me", "nnFriend", "nnFriend", "req"): (A, "null"),
+      ("me", "nnFriend", "nnFriend", "name"): (A, "value"), ("me", "friends", 0, "name"): (A, "raise"),
+      ("a", "nnFriends"): (A, "value"), ("a", "nnFriends", 1, "req"): (A, "raise")},
+     [("me", "friends", 0, "name"), ("a", "nnFriends"), ("me", "nnFriend", "nnFriend", "req"), ("a", "nnFriends", 1, "req")]),
+    # serial roots: m1 fails synchronously inside its awaitable value while a sibling of the failing field is pending
+    ("mutation { m1 { bestFriend { name } req } m2 { name } }",
+     {("m1",): (A, "value"), ("m1", "bestFriend"): (A, "value"), ("m1", "req"): (S, "raise"), ("m2", "name"): (A, "value")},
+     [("m1",), ("m1", "bestFriend"), ("m2", "name")]),
+    ("mutation { m1 { bestFriend { name } req } m2 { name } m3 { req } }",
+     {("m1",): (A, "value"), ("m1", "bestFriend"): (A, "value"), ("m1", "req"): (A, "raise"), ("m2", "name"): (A, "value"),
+      ("m3", "req"): (A, "null")},
+     [("m1",), ("m1", "req"), ("m2", "name"), ("m3", "req")]),
+]
 
 
 # --------------------------------------------------------------------------- implementation side
@@ -291,15 +321,26 @@ def below(p, roots):
 # --------------------------------------------------------------------------- one comparison
 
 
-def compare(ck, m, schema, q, doc, beh, order, tree_info, rep_extra=None):
-    """Run the implementation under `order` and the model under the completion order actually used."""
+def observe(schema, q, doc, beh, order, tree_info):
+    """Run the implementation under `order`; returns the observations and the model request (the schedule is the
+    completion order the loop actually used)."""
     root, leaves, _paths = tree_info
     obs = run_real(schema, doc, beh, order)
     keys = Keys()
     wire_tree = enc_node(root, keys)
     sched = [keys.path(p) for p in obs["completed"]]
     wire = [1] + wire_tree + [len(sched)] + [x for p in sched for x in [len(p)] + p]
-    out = m.run_batch([wire])[0]
+    return {"q": q, "beh": beh, "order": order, "obs": obs, "keys": keys, "wire": wire, "root": root, "leaves": leaves}
+
+
+def compare(ck, m, schema, q, doc, beh, order, tree_info, rep_extra=None):
+    """One request through implementation and model."""
+    o = observe(schema, q, doc, beh, order, tree_info)
+    judge(ck, o, m.run_batch([o["wire"]])[0], rep_extra)
+
+
+def judge(ck, o, out, rep_extra=None):
+    q, beh, order, obs, keys, wire, root, leaves = (o[k] for k in ("q", "beh", "order", "obs", "keys", "wire", "root", "leaves"))
     ans = dec_answer(out, keys, leaves)
     n_async = count_nodes(root, lambda n: n[2])
     n_err = count_nodes(root, lambda n: n[3] == 0 or (n[3] == 1 and n[1]))
@@ -389,6 +430,9 @@ def compare(ck, m, schema, q, doc, beh, order, tree_info, rep_extra=None):
             ri = roots.index(p[0]) if p[0] in roots else -1
             if len(p) == 1:
                 started = max(started, ri)
+            elif ri < started and not REPORT_ORPHAN_OVERLAP:
+                ck.count("casync_mutation_background_work_overlaps_next_root")
+                break
             elif ri < started:
                 ck.violation(ORPHAN_KEY, f"resolver {list(p)} below mutation root field {p[0]!r} was invoked after root field "
                              f"{roots[started]!r} had started (work left to the background by settle_in_background)",
@@ -469,6 +513,9 @@ def core(ck, tier, model_ok, budget_s=None):
     import warnings
     warnings.filterwarnings("ignore", category=RuntimeWarning)
     sys.unraisablehook = lambda *_a: None
+    for a in ASSUMPTIONS:
+        if a not in ck.assumptions:
+            ck.assumptions.append(a)
     if not model_ok:
         ck.degraded.append("CASYNC: model `async` not built, correspondence skipped")
         return
@@ -482,6 +529,9 @@ def core(ck, tier, model_ok, budget_s=None):
     schema = build_schema(c03.SDL)
     for c in common.load_corpus(PID):
         run_corpus_case(ck, m, schema, c)
+    for q, beh, order in FIXED:
+        doc = parse(q)
+        compare(ck, m, schema, q, doc, beh, order, derive_tree(schema, doc, beh))
     queries = [q for q in c03.QUERIES + EXTRA_QUERIES]
     docs = [(q, parse(q)) for q in queries]
     base = {}
@@ -491,7 +541,7 @@ def core(ck, tier, model_ok, budget_s=None):
             ck.count("skipped_out_of_fragment")
             continue
         base[q] = info[2]
-    ntrials = 14 if quick else 160
+    ntrials = 30 if quick else 400
     nruns = 0
     stop = False
     for trial in range(1, ntrials + 1):
@@ -505,8 +555,9 @@ def core(ck, tier, model_ok, budget_s=None):
             beh = gen_behaviours(rng, paths, trial, p_async=rng.choice([0.3, 0.5]))
             info = derive_tree(schema, doc, beh)
             labels = [p for p, (mo, _) in sorted(beh.items(), key=repr) if mo == "async"]
-            for order in orders_for(rng, labels, quick):
-                compare(ck, m, schema, q, doc, beh, order, info)
+            batch = [observe(schema, q, doc, beh, order, info) for order in orders_for(rng, labels, quick)]
+            for o, out in zip(batch, m.run_batch([o["wire"] for o in batch])):
+                judge(ck, o, out)
                 nruns += 1
         if stop:
             ck.count("casync_stopped_on_time_budget")
@@ -555,7 +606,6 @@ def account_proofs(ck, br):
 
 def run(tier):
     ck = Check(PID, tier)
-    ck.assumptions += ASSUMPTIONS
     br = build()
     account_proofs(ck, br)
     if not br.ok:
